@@ -301,6 +301,43 @@ func httpHeadProbe(m *meta) {
 		}
 	}
 	mw.Close()
+	// (1b) behind a real server: a handler that suppresses Content-Type sniffing with a value-less key
+	// (w.Header()["Content-Type"] = nil) and one that sets an empty value; the hit must look the same to the client
+	{
+		mw, err := httpcache.New(httpcache.Config{MaxSize: 100, ShardCount: 1, EvictionPolicy: kioshun.LRU, DefaultTTL: time.Hour, DisableCleanup: true})
+		must(err)
+		srv := httptest.NewServer(mw.Wrap(http.HandlerFunc(func(w http.ResponseWriter, rq *http.Request) {
+			switch rq.URL.Path {
+			case "/nosniff":
+				w.Header()["Content-Type"] = nil
+			case "/emptyval":
+				w.Header()["X-Empty"] = []string{""}
+				w.Header()["X-None"] = []string{}
+			}
+			w.Write([]byte("<html><body>hello</body></html>"))
+		})))
+		for _, path := range []string{"/nosniff", "/emptyval"} {
+			var views [2]http.Header
+			var marks [2]string
+			for i := 0; i < 2; i++ {
+				resp, err := http.Get(srv.URL + path)
+				if err != nil {
+					break
+				}
+				io.Copy(io.Discard, resp.Body)
+				resp.Body.Close()
+				views[i], marks[i] = resp.Header, resp.Header.Get("X-Cache")
+			}
+			if marks[1] == "HIT" {
+				if d, ok := same(views[0], views[1], skip); !ok {
+					m.violate("C14", fmt.Sprintf("GET %s behind a real server (handler sets a header key with no value / an empty value, body looks like HTML): hit headers differ from the origin response: %s", path, d), "sniff probe")
+				}
+				m.count("sniff_probe_hits")
+			}
+		}
+		srv.Close()
+		mw.Close()
+	}
 	// (2)
 	mw2, err := httpcache.New(httpcache.Config{MaxSize: 100, ShardCount: 1, EvictionPolicy: kioshun.LRU, DefaultTTL: time.Hour, DisableCleanup: true, CacheableMethods: []string{"GET"}})
 	must(err)
